@@ -319,6 +319,7 @@ class FastLenCrop(Unit):
     """fast_len(z) == z[:F(N)] with start_time and sample_rate untouched, for any F with 0 <= F(N) <= N."""
     functions = ("pulsarbat.transforms.transforms:fast_len", "pulsarbat.core:Signal._time_slice", "pulsarbat.core:Signal.__getitem__")
     witnesses = 1
+    budget_s = 120
 
     def __init__(self, clsname, with_t0=True):
         self.clsname, self.with_t0 = clsname, with_t0
